@@ -1,3 +1,5 @@
 import Rp2.Props.C11
 #print axioms Rp2.C11.in_row_layout_independent
 #print axioms Rp2.C11.permuted_columns_same_fields
+#print axioms Rp2.C11.ids_are_row_numbers
+#print axioms Rp2.C11.no_row_skipped
